@@ -1,5 +1,5 @@
 (* C08/Properties.v — the property theorems, nothing else. *)
-From Verif Require Import Common.Base C08.Model C08.Json Generated.OtlpProto Generated.C08JsonDecoders C08.Proofs.
+From Verif Require Import Common.Base C08.Model C08.Json Generated.OtlpProto Generated.C08JsonDecoders Generated.C08T1 C08.Proofs.
 Local Open Scope N_scope.
 
 (* ---- bit level -------------------------------------------------------------------------- *)
@@ -179,3 +179,60 @@ Theorem otlp_json_roundtrip : forall m v,
   of_json OtlpSchema OtlpJsonDecoders OtlpEnums m (to_json OtlpSchema m v) = Some v.
 Proof. exact (json_roundtrip_l OtlpSchema OtlpJsonDecoders OtlpEnums otlp_schema_wf_l). Qed.
 Print Assumptions otlp_json_roundtrip.
+
+(* ---- the public protobuf decode paths and the migration of the deprecated scope fields -------- *)
+(* Model.path_migrates says which public path runs otlp.MigrateX (ProtoUnmarshaler: no,
+   ExportRequest.UnmarshalProto: yes; the JSON paths, Json.of_json: yes); case kinds 1 and 2 of the
+   correspondence run tie that table to the four signals on every run. *)
+
+(* for a payload WITHOUT deprecated fields the migration is the identity, hence every public path
+   decodes the same bytes to the same payload (any schema) ... *)
+Theorem migrate_id : forall (S : schema) m v, no_deprecated S m v = true -> migrate S m v = v.
+Proof. exact migrate_id_l. Qed.
+Print Assumptions migrate_id.
+
+Theorem public_paths_agree : forall (S : schema) m b v,
+  decode S m b = Some v -> no_deprecated S m v = true -> forall p, decode_path S p m b = Some v.
+Proof. exact public_paths_agree_l. Qed.
+Print Assumptions public_paths_agree.
+
+(* ... and the two public encoders give the same bytes for every payload: theorem `wrappers` above. *)
+
+(* the migrating paths leave no deprecated field behind and are idempotent, for the four request
+   roots of the real schema *)
+Theorem otlp_migrating_paths_clear : forall m v, In m request_roots -> res_shaped OtlpSchema m v = true ->
+  no_deprecated OtlpSchema m (migrate OtlpSchema m v) = true
+  /\ migrate OtlpSchema m (migrate OtlpSchema m v) = migrate OtlpSchema m v.
+Proof. exact otlp_migrate_clears_l. Qed.
+Print Assumptions otlp_migrating_paths_clear.
+
+(* profiles has no deprecated field: all its public paths coincide on every byte string *)
+Theorem otlp_profiles_paths_coincide : forall p b,
+  decode_path OtlpSchema p m_collector_profiles_v1development_ExportProfilesServiceRequest b
+  = decode OtlpSchema m_collector_profiles_v1development_ExportProfilesServiceRequest b.
+Proof. exact otlp_profiles_paths_l. Qed.
+Print Assumptions otlp_profiles_paths_coincide.
+
+(* REFUTED for logs, metrics and traces (finding C08-PBUNMARSHAL-NOMIGRATE): on the bytes of a legacy
+   sender ProtoUnmarshaler and ExportRequest.UnmarshalProto decode different payloads; the former
+   still carries the deprecated field, is canonical, and does not survive JSON. *)
+Theorem public_paths_agree_refuted : forallb paths_differ_on legacy_witnesses = true.
+Proof. exact otlp_paths_differ_l. Qed.
+Print Assumptions public_paths_agree_refuted.
+
+(* ---- translator T1 obligations: the hand-written pieces equal what the Go source says now ------ *)
+Theorem t1_varint_size_is_sov :
+  sov_spec sovCommon /\ sov_spec sovResource /\ sov_spec sovLogs /\ sov_spec sovMetrics /\ sov_spec sovTrace
+  /\ sov_spec sovProfiles /\ sov_spec sovLogsService /\ sov_spec sovMetricsService /\ sov_spec sovTraceService
+  /\ sov_spec sovProfilesService.
+Proof. exact t1_sov_all. Qed.
+Print Assumptions t1_varint_size_is_sov.
+
+Theorem t1_schema_id_lengths :
+  id_fields_ok = true /\ TraceID_Size true = 0%Z /\ SpanID_Size true = 0%Z /\ ProfileID_Size true = 0%Z.
+Proof. exact t1_id_lengths. Qed.
+Print Assumptions t1_schema_id_lengths.
+
+Theorem t1_schema_enum_values : enum_values_ok = true /\ enum_fields_listed = true.
+Proof. split; [exact t1_enum_values|exact t1_enum_fields_listed]. Qed.
+Print Assumptions t1_schema_enum_values.
